@@ -212,11 +212,18 @@ async fn dht_script(wi: u64, mut rng: Rng) -> anyhow::Result<(Vec<Ev>, Vec<Optio
             sizes.push(dsize(&c, &reqs));
         } else if choice == 10 && !live.is_empty() {
             let i = live[rng.below(live.len() as u64) as usize];
+            // never race a cancellation against the request's own timeout (the request would remove its entry itself)
+            if reqs[i].deadline < Instant::now() + Duration::from_millis(350) { continue; }
             reqs[i].task.abort(); reqs[i].alive = false;
-            let _ = (&mut reqs[i].task).await;
-            if let Some(t) = started_at.get(&reqs[i].idx) { leftover.push(*t); }
-            evs.push(Ev::Cancel(reqs[i].idx)); obs.push(None);
-            sizes.push(dsize(&c, &reqs));
+            match (&mut reqs[i].task).await {
+                Err(e) if e.is_cancelled() => {
+                    if let Some(t) = started_at.get(&reqs[i].idx) { leftover.push(*t); }
+                    evs.push(Ev::Cancel(reqs[i].idx)); obs.push(None);
+                    sizes.push(dsize(&c, &reqs));
+                }
+                // the task had already returned when the abort arrived: an ordinary Finish
+                _ => { evs.push(Ev::Finish(reqs[i].idx)); obs.push(None); sizes.push(999999); }
+            }
         } else if choice == 11 {
             // age everything beyond the sweep horizon (only when no live request could time out ambiguously)
             if live.is_empty() {
